@@ -324,6 +324,7 @@ func cmdList(args []string) {
 	out["harnesses"] = hs
 	// exported zero-argument methods per named type in package calendar (for C08)
 	meths := map[string][]string{}
+	scalar := map[string][]string{}
 	if cal := l.byName["calendar"]; cal != nil {
 		for name, mem := range cal.Members {
 			tn, ok := mem.(*ssa.Type)
@@ -342,11 +343,25 @@ func cmdList(args []string) {
 				if f.Exported() && sig.Params().Len() == 0 {
 					meths[name] = append(meths[name], f.Name()+":"+sig.Results().String())
 				}
+				// exported methods whose parameters are all int / bool (for the C09 shared-write walk)
+				if f.Exported() && sig.Params().Len() > 0 && sig.Params().Len() <= 3 {
+					var ps []string
+					for k := 0; k < sig.Params().Len(); k++ {
+						if b, ok := sig.Params().At(k).Type().(*types.Basic); ok && (b.Kind() == types.Int || b.Kind() == types.Bool) {
+							ps = append(ps, b.Name())
+						}
+					}
+					if len(ps) == sig.Params().Len() {
+						scalar[name] = append(scalar[name], f.Name()+":"+strings.Join(ps, ","))
+					}
+				}
 			}
 			sort.Strings(meths[name])
+			sort.Strings(scalar[name])
 		}
 	}
 	out["zero_arg_methods"] = meths
+	out["scalar_arg_methods"] = scalar
 	json.NewEncoder(os.Stdout).Encode(out)
 }
 
